@@ -1,12 +1,95 @@
 /- Driver operations of property C03 (ops are named "c03.<name>"). Core + Lean.Data.Json only. -/
 import Reamber.Util.Json
+import Reamber.Model.SM
+import Reamber.Spec.SM
+import Reamber.Drv.C02
 
 open Lean Reamber.J
 
 namespace Reamber.C03
 
-def handle (op : String) (_j : Json) : Except String Json :=
+open Reamber.SM Reamber.Timing Reamber.C02
+
+def strOfJson (j : Json) : Except String Str := do .ok (← strOf? j).toList
+
+def kindOf (s : String) : Except String Kind :=
+  match s with
+  | "hit" => .ok .hit | "mine" => .ok .mine | "lift" => .ok .lift | "fake" => .ok .fake
+  | "keysound" => .ok .keysound | "hold" => .ok .hold | "roll" => .ok .roll
+  | _ => .error s!"unknown kind {s}"
+
+def noteOfJson (j : Json) : Except String Note :=
+  match j with
+  | Json.arr #[k, c, t, l] => do .ok ⟨← kindOf (← strOf? k), ← natOf? c, ← ratOf? t, ← ratOf? l⟩
+  | _ => .error s!"note expected [kind, col, time, length]: {j}"
+
+def pairOfJson (j : Json) : Except String (Rat × Rat) :=
+  match j with
+  | Json.arr #[a, b] => do .ok (← ratOf? a, ← ratOf? b)
+  | _ => .error s!"pair expected: {j}"
+
+def chartOfJson (j : Json) : Except String WChart := do
+  .ok { chartType := (← getStr j "chart_type").toList, description := (← getStr j "description").toList,
+        difficulty := (← getStr j "difficulty").toList, difficultyVal := ← getInt j "difficulty_val",
+        groove := ← getArr ratOf? j "groove", bpms := ← getArr pairOfJson j "bpms",
+        notes := ← getArr noteOfJson j "notes" }
+
+def headerOfJson (j : Json) : Except String WHeader := do
+  let strs ← field j "strs"
+  let kv ← stringTags.mapM (fun ta => do
+    let v ← getStr strs (String.ofList ta.2)
+    .ok (ta.2, v.toList))
+  .ok { strs := kv, offset := ← getRat j "offset", sampleStart := ← getRat j "sample_start",
+        sampleLength := ← getRat j "sample_length", selectable := ← getBool j "selectable" }
+
+/-- diagnostics of one chart for the comparator: (every den divides its measure's den_max,
+some non-dividing slot whose exact row is an integer, two objects in one cell) -/
+def chartDiag (c : WChart) : Except Err (Bool × Bool × Bool) := do
+  let objs := writeOrder c.notes
+  let bs ← beats defaultGrid (toTimingMap c.bpms) (objs.map (·.1))
+  let slots := (objs.zip bs).map fun ob => slotOf ob.2 ob.1.2.1 ob.1.2.2
+  let ms := measuresSorted slots
+  let per := ms.map fun m =>
+    let g := slots.filter (fun s => s.measure = m)
+    let dmax := denMax (g.map (·.den))
+    let exact := g.all (fun s => dmax % s.den == 0)
+    let near := g.any (fun s => dmax % s.den != 0 && (s.num * dmax) % s.den == 0)
+    let cells := g.map (fun s => (rowOf s.num s.den dmax, s.col))
+    let coll := cells.eraseDups.length != cells.length
+    (exact, near, coll)
+  .ok (per.all (·.1), per.any (·.2.1), per.any (·.2.2))
+
+def writtenChartToJson (c : WrittenChart) : Json :=
+  obj [("chart_type", strToJson c.chartType), ("description", strToJson c.description),
+       ("difficulty", strToJson c.difficulty), ("difficulty_val", intToJson c.difficultyVal),
+       ("groove", listToJson ratToJson c.groove),
+       ("measures", listToJson (listToJson strToJson) c.measures)]
+
+def handle (op : String) (j : Json) : Except String Json := do
   match op with
+  | "c03.write" =>
+    let h ← headerOfJson (← field j "hdr")
+    let cs ← getArr chartOfJson j "charts"
+    match SM.write h cs with
+    | .error e => .ok (errJson e.toString)
+    | .ok w =>
+      let diags := cs.map (fun c => match chartDiag c with
+        | .ok (a, b, c) => obj [("exact_rows", Json.bool a), ("near_int", Json.bool b), ("collision", Json.bool c)]
+        | .error _ => Json.null)
+      let bb : List Rat := match cs with
+        | c0 :: _ => match beats defaultGrid (toTimingMap c0.bpms) (c0.bpms.map (·.1)) with
+          | .ok l => l
+          | .error _ => []
+        | [] => []
+      .ok (okJson (obj [
+        ("strs", obj (w.strs.map (fun ta => (String.ofList (ta.1.drop 1), strToJson ta.2)))),
+        ("offset_sec", ratToJson w.offsetSec),
+        ("bpms", listToJson (fun p => Json.arr #[ratToJson p.1, ratToJson p.2]) w.bpms),
+        ("bpm_beats", listToJson ratToJson bb),
+        ("sample_start_sec", ratToJson w.sampleStartSec), ("sample_length_sec", ratToJson w.sampleLengthSec),
+        ("selectable", strToJson w.selectable),
+        ("charts", listToJson writtenChartToJson w.charts),
+        ("diag", Json.arr diags.toArray)]))
   | _ => .error s!"unknown op {op}"
 
 end Reamber.C03
